@@ -615,3 +615,13 @@ def run(ck, prog):
 
 
 EXPLANATION += " The class score stays in log space: no exp() of a value derived from log_likelihood in BaseNaiveBayes::predict."
+
+
+# ------------------------------------------------------------------ generic: the value tested against a bound is the value set to the bound (clamps)
+_run_pre_clamp = run
+
+
+def run(ck, prog):
+    _run_pre_clamp(ck, prog)
+    from sa import clamp
+    clamp.run_rule(ck, prog, set(DIMENSION_FILES))
